@@ -204,8 +204,7 @@ def loader_unit(which):
                       z3.And(z3.Implies(z3.Not(HAS(sec, ma)), z3.BoolVal(m is None)),
                              z3.Implies(HAS(sec, ma), (m == OPT(sec, ma)) if z3.is_expr(m) else z3.BoolVal(False))))
     ip.loops[(fn, 0)] = LoopSpec('for section in config.sections()', inv, havoc, ghost_pre=pre, ghost_step=step,
-                                 locals_modified=['section', 'options', 'pattern', 'retentions', 'archives',
-                                                  'mySchema', 'archiveList', 'xFilesFactor', 'aggregationMethod', 'e', 'exc'])
+                                 locals_modified=[])
     raised = None
     try:
       r = ip.run(fn, [])
